@@ -494,16 +494,14 @@ template <class T> static void matmul44_static (vp::Ctx& c, const Matrix44<T>& A
     Matrix44<T> S2 = Matrix44<T>::multiply (A, B);
     Matrix44<T> S3 (T (7)); // garbage to be overwritten
     Matrix44<T>::multiply (A, B, S3);
-    Matrix44<T> L = A, R = B;
-    Matrix44<T>::multiply (L, B, L); // output aliases the left operand
-    Matrix44<T>::multiply (A, R, R); // output aliases the right operand
+    // NOT checked: multiply(a,b,c) with c aliasing a or b - the header documents "&a != &c and &b != &c" as a
+    // precondition, so an implementation that writes straight into c is allowed (operator*= has no such
+    // precondition: A *= A is checked above).
     for (int i = 0; i < 4; ++i)
         for (int j = 0; j < 4; ++j)
         {
             SAME (T, P[i][j], S2[i][j], "mat44-multiply-spellings", "Matrix44 operator* vs static multiply(a,b) slot [" << i << "][" << j << "]");
             SAME (T, P[i][j], S3[i][j], "mat44-multiply-spellings", "Matrix44 operator* vs static multiply(a,b,c) slot [" << i << "][" << j << "]");
-            SAME (T, P[i][j], L[i][j], "mat44-multiply-aliased", "Matrix44 multiply(a,b,a) slot [" << i << "][" << j << "]");
-            SAME (T, P[i][j], R[i][j], "mat44-multiply-aliased", "Matrix44 multiply(a,b,b) slot [" << i << "][" << j << "]");
         }
 }
 template <class T> static void matmul_case (vp::Ctx& c)
@@ -531,10 +529,10 @@ template <class T> static void matmul_case (vp::Ctx& c)
         matmul44_static<T> (c, A, B);
     }
 }
-VP_RANDOM (matmul_f, 1500000, 30000000, "Matrix22/33/44<float> operator*, *=, A*=A, Matrix44::multiply 2- and 3-argument (incl. output aliasing an input); every slot; " C05_RULE_COMMON) { matmul_case<float> (c); }
+VP_RANDOM (matmul_f, 1500000, 30000000, "Matrix22/33/44<float> operator*, *=, A*=A, Matrix44::multiply 2- and 3-argument (distinct output object, as documented); every slot; " C05_RULE_COMMON) { matmul_case<float> (c); }
 VP_LABELS (matmul_f, C05_LABELS)
 VP_REQUIRE_LABELS (matmul_f, "lattice", "sparse", "graded", "random", "exact_equality_demanded", "all_nonzero_distinct", "dim2", "dim3", "dim4", "affine_last_column")
-VP_RANDOM (matmul_d, 1500000, 30000000, "Matrix22/33/44<double> operator*, *=, A*=A, Matrix44::multiply 2- and 3-argument (incl. output aliasing an input); every slot; " C05_RULE_COMMON) { matmul_case<double> (c); }
+VP_RANDOM (matmul_d, 1500000, 30000000, "Matrix22/33/44<double> operator*, *=, A*=A, Matrix44::multiply 2- and 3-argument (distinct output object, as documented); every slot; " C05_RULE_COMMON) { matmul_case<double> (c); }
 VP_LABELS (matmul_d, C05_LABELS)
 VP_REQUIRE_LABELS (matmul_d, "lattice", "sparse", "graded", "random", "exact_equality_demanded", "all_nonzero_distinct", "dim2", "dim3", "dim4", "affine_last_column")
 
